@@ -292,9 +292,16 @@ func genC18(tier, out string, sum *Summary) {
 	g2 := &Gen{Funcs: true, Arith: true, NoRoot: true}
 	c := &relCtx{sh: &Shards{dir: out, prop: "C18", imports: "Spec.RefAst Checks.Spec", ctype: "speccase", runner: "spec_run", per: 300}, sum: sum, dist: map[string]bool{}}
 	for i := 0; i < n; i++ {
-		doc := genDoc()
 		e1 := g1.expr(2)
 		e2 := g2.expr(2)
+		doc := genDoc()
+		if rng.Intn(4) > 0 { // a document on which e1 | e2 selects something
+			doc = docFor(pipe(e1, e2))
+		}
+		if (hasEnum(e1) || hasEnum(e2)) && (orderSensitive(e1) || orderSensitive(e2)) && !buildsObjects(e1) && !buildsObjects(e2) {
+			doc = bestNarrow(unparse(pipe(e1, e2)), doc) // one member per object: enumeration order is determined
+			sum.count("narrowed-objects/enumeration-then-position")
+		}
 		t1 := unparse(e1)
 		o1 := search(t1, doc)
 		sum.count("first/" + o1.Kind)
@@ -313,7 +320,7 @@ func genC18(tier, out string, sum *Summary) {
 				}
 				o2f := search(unparse(e2), of.Value)
 				opf := search(unparse(pipe(e1, e2)), fd)
-				if !sameObs(o2f, opf, un) && !(o2f.Kind == "err" && opf.Kind == "err") && !(un && (orderSensitive(e1) || orderSensitive(e2))) {
+				if !sameObs(o2f, opf, un) && !(o2f.Kind == "err" && opf.Kind == "err") && !(un && (orderSensitive(e1) || orderSensitive(e2)) && (buildsObjects(e1) || buildsObjects(e2))) {
 					sum.direct("requery", unparse(pipe(e1, e2)), fd, fmt.Sprintf("searching e2 over the result of e1 gives %s but e1 | e2 gives %s", describe(o2f), describe(opf)))
 				}
 			}
@@ -330,7 +337,7 @@ func genC18(tier, out string, sum *Summary) {
 		o2 := search(unparse(e2), o1.Value)
 		op := search(unparse(pipe(e1, e2)), doc)
 		sum.count("second/" + o2.Kind)
-		if !sameObs(o2, op, un) && !(un && (orderSensitive(e1) || orderSensitive(e2))) {
+		if !sameObs(o2, op, un) && !(un && (orderSensitive(e1) || orderSensitive(e2)) && (buildsObjects(e1) || buildsObjects(e2))) {
 			// when both fail, any of the faults present may be reported
 			if !(o2.Kind == "err" && op.Kind == "err") {
 				sum.direct("requery", unparse(pipe(e1, e2)), doc, fmt.Sprintf("searching e2 over the result of e1 gives %s but e1 | e2 gives %s", describe(o2), describe(op)))
